@@ -22,6 +22,7 @@ CHUNK = 300
 TASKS_PER_CHILD = 400
 POLL = 2                 # explicit poll interval, ticks
 TSMALL = 2 * POLL        # "small" timeout, ticks
+TMID, TLONG = 5 * POLL, 10 * POLL   # timeouts spanning several poll intervals (the polling loop runs many rounds)
 
 RULE = ('case = (object configs (reentrant?, constructor timeout), fault script, sequence of (thread, call)) run against '
         'the real FileLock on a real lock file with real flock; two gated threads issue the calls one at a time; '
@@ -30,7 +31,7 @@ RULE = ('case = (object configs (reentrant?, constructor timeout), fault script,
         'acquire(False) [+release]) which the model replays as ordinary calls.  Layers: every contract-respecting '
         'sequence shape over {acquire, release, release(force)} x 2 objects x 2 threads up to the tier length (canonical '
         'up to renaming of threads/objects; a call that blocks forever only in last position), the acquire flavour '
-        '(acquire/acquire_ctx/with x blocking/non-blocking/timed x timeout -1/0/2*poll) and the object configuration '
+        '(acquire/acquire_ctx/with x blocking/non-blocking/timed x timeout -1/0/2*poll/5*poll/10*poll) and the object configuration '
         'rotate over the shapes; every single OSError injection at every syscall index of the shorter shapes, sampled '
         'double injections; random longer sequences.  non-trivial (decided in Coq): >= 3 observed calls with a '
         'successful acquire and either a refusal or a second success.  Context managers entered through acquire_ctx() / '
@@ -40,7 +41,8 @@ RULE = ('case = (object configs (reentrant?, constructor timeout), fault script,
         'close the library handles it like the OSError; at flock it must close the descriptor, clean up and re-raise '
         '(F9), at open clean up and re-raise - the model replays exactly that and the fd-count clause judges it.')
 EXHAUSTIVE_NOTE = ('all canonical contract-respecting shapes of length <= 4 (quick) / <= 5 (thorough) over 12 letters; '
-                   'single-fault injection at every syscall index for shapes of length <= 3 (quick: every second shape) / <= 4')
+                   'single-fault injection at every syscall index for shapes of length <= 3 (quick: every second shape of length 3, one of the '
+                   'two flavours per site, alternating with the seed) / <= 4 (both flavours at every site)')
 ASSUMPTIONS = ['kernel flock(2): exclusive per open file description, released by LOCK_UN / close (checked on every '
                'syscall of every run against the shim table, not proved)',
                'threading.Lock/RLock behave as gate.GLock/GRLock (modelled primitives)',
@@ -52,7 +54,8 @@ ALLOWED_AXIOMS = []
 # acquire flavours: (mode, blocking, timeout)
 FLAVOURS = [('plain', True, None), ('plain', False, None), ('plain', True, TSMALL), ('ctx', True, None),
             ('with', True, None), ('plain', True, 0), ('ctx', False, None), ('plain', False, TSMALL),
-            ('plain', True, -1), ('ctx', True, TSMALL), ('plain', False, -1), ('ctx', False, 0)]
+            ('plain', True, -1), ('ctx', True, TSMALL), ('plain', False, -1), ('ctx', False, 0),
+            ('plain', True, TMID), ('ctx', True, TLONG), ('plain', True, TLONG)]
 CFGS = [[[False, -1], [False, -1]], [[True, -1], [True, -1]], [[True, -1], [False, TSMALL]],
         [[False, TSMALL], [True, -1]], [[True, TSMALL], [True, 0]], [[False, -1], [True, -1]]]
 
@@ -196,16 +199,26 @@ def corpus():
     out.append(mk(cfgN, [A(0, 0), A(1, 1, ('plain', True, TSMALL)), R(0, 0), A(1, 1)], [('lock', 1, 'ki')]))
     out.append(mk(cfgN, [A(0, 0), R(0, 0), A(1, 1)], [('lock', 0, 'ki')]))
     out.append(mk(cfgN, [A(0, 0, ('with', True, None)), R(0, 0), A(1, 1)], [('open', 0, 'ki')]))
+    # a contended timed acquire whose timeout spans several poll intervals: the polling stage runs to its deadline and
+    # must give up within timeout + ONE poll interval (a loop that stretches its sleeps overshoots)
+    out.append(mk(cfgN, [A(0, 0), A(1, 1, ('plain', True, TMID)), R(0, 0), A(1, 1, ('plain', True, TLONG)), R(1, 1)]))
+    out.append(mk(cfgN, [A(0, 0), A(1, 1, ('ctx', True, TLONG)), A(1, 1, ('plain', True, TLONG)), R(0, 0)]))
+    out.append(mk([[False, -1], [False, TLONG]], [A(0, 0), A(1, 1), A(0, 1, ('with', True, None)), R(0, 0)]))
     return out
 
 
 def _fault_cases(args):
-    cfg, ops, double_seed, n_double = args
+    cfg, ops, double_seed, n_double, alternate = args
     n = _counts(mk(cfg, ops))
     sites = [(k, i) for k in ('open', 'lock', 'unlock', 'close') for i in range(n[k])]
-    out = [mk(cfg, ops, [s]) for s in sites]
-    # the same fault in the interrupt flavour (a BaseException that is not an Exception: KeyboardInterrupt)
-    out += [mk(cfg, ops, [(k, i, 'ki')]) for k, i in sites]
+    if alternate:
+        # quick tier, longest fault shapes: every site gets ONE of the two flavours (OSError / interrupt), alternating
+        # along the sites and with the seed, so two consecutive seeds cover both; thorough: both flavours everywhere
+        out = [mk(cfg, ops, [s if (j + double_seed) % 2 else s + ('ki',)]) for j, s in enumerate(sites)]
+    else:
+        out = [mk(cfg, ops, [s]) for s in sites]
+        # the same fault in the interrupt flavour (a BaseException that is not an Exception: KeyboardInterrupt)
+        out += [mk(cfg, ops, [(k, i, 'ki')]) for k, i in sites]
     if n_double and len(sites) >= 2:
         rnd = random.Random(double_seed)
         pairs = list(itertools.combinations(sites, 2))
@@ -244,7 +257,7 @@ def gen_exhaustive(tier, seed):
                 continue
             if tier != 'quick' and L == 4 and k % 4:
                 continue
-            jobs.append((cfg, ops, 1000 * seed + k, 3 if tier == 'quick' else 12))
+            jobs.append((cfg, ops, 1001 * seed + k, 3 if tier == 'quick' else 12, tier == 'quick' and L == 3))
     with mp.get_context('fork').Pool(C.NPROC) as pool:
         for cs in pool.map(_fault_cases, jobs, chunksize=8):
             out += cs
@@ -350,7 +363,8 @@ LEVEL_TEXT = ('FileLock (acquire / acquire_ctx / with / release / release(force)
               'fail_no_residue (a failing acquire - False / TimeoutError / re-raised OSError - leaves every object, the table '
               'of open descriptors and the kernel holder exactly as before, caller idle and not inside), '
               'nonblocking_immediate (no virtual time passes, never blocks), timed_bound (elapsed <= T + T + poll, never '
-              'blocks), release_faults (a release that gives the OS lock up ends normally with descriptor closed, counter 0, '
+              'blocks), timed_bound_alone (one call at a time: at most one of the two stages waits, elapsed <= T + poll - the '
+              'bound the monitor checks), release_faults (a release that gives the OS lock up ends normally with descriptor closed, counter 0, '
               'lock not held through it, even if unlock/close raise); and for sequences of calls without scripted faults '
               'refines_rlock_spec (from the initial state of the correspondence runs, every contract-respecting sequence by any '
               'threads on any objects gives exactly the results of the abstract Lock/RLock spec FLockSpec.v, and the final '
